@@ -237,6 +237,25 @@ def c17(ctx):
             if len(vs) != n or len(set(vs)) != n or set(vs) & set(excl) or not set(vs) <= set(pool):
                 bad.append({"helper": "get_rand_vars", "seed": s, "n": n, "exclude": excl, "common": common, "got": vs,
                             "problem": "not n distinct variables outside the exclusions"})
+            # term templates: distinct (variable, exponent) pairs, none of the excluded ones
+            try:
+                common2 = rng.random() < 0.5
+                nt = rng.choice([1, 2, 3]) if common2 else rng.choice([1, 2, 4, 8])
+                excl_t = [PR.MathyTermTemplate(variable=rng.choice("xyz"), exponent=rng.choice([None, 2, 3]))
+                          for _ in range(rng.choice([0, 0, 1, 2]))]
+                n_eval += 1
+                tpls = PR.get_rand_term_templates(nt, exclude_like=excl_t or None, common_variables=common2,
+                                                  exponent_probability=rng.choice([0.0, 0.5, 1.0]))
+                keys = [(t.variable, t.exponent) for t in tpls]
+                if len(keys) != nt or len(set(keys)) != nt or set(keys) & {(t.variable, t.exponent) for t in excl_t} \
+                        or any(k[1] == 1 for k in keys):
+                    bad.append({"helper": "get_rand_term_templates", "seed": s, "n": nt, "templates": str(keys),
+                                "exclude": str([(t.variable, t.exponent) for t in excl_t]),
+                                "problem": "templates are not distinct / not the requested number / not outside the exclusions"})
+            except EnvironmentError:
+                pass  # documented: gives up after 100 failed draws (tiny pools)
+            except Exception as e:  # noqa
+                bad.append({"helper": "get_rand_term_templates", "seed": s, "problem": type(e).__name__ + ": " + str(e)[:100]})
             v = rng.randint(0, 60)
             try:
                 lo, hi = PR.split_in_two_random(v)
